@@ -70,10 +70,8 @@ func hasSideEffects(c syntax.Callable) bool {
 			}
 			if sc := c.Callables.Table[call.Id]; sc == nil {
 				panic(fmt.Sprint("unknown callable ", call.DecId))
-			} else if p, ok := sc.(*syntax.Pipeline); ok {
-				if hasSideEffects(p) {
-					return true
-				}
+			} else if hasSideEffects(sc) {
+				return true
 			}
 		}
 	}
